@@ -17,7 +17,7 @@ CONSTANT Tier
 VARIABLE row
 vars == <<row>>
 
-Fuel == 60
+Fuel == IF Tier = "thorough" THEN 400 ELSE 60
 Host == <<<<"t", <<"log">>>>>>
 
 Func(name, params, body) == <<"func", name, params, body>>
@@ -26,7 +26,8 @@ Arr(es) == <<"arr", es>>
 Call(f, args) == CallE(f, args)
 Plus(a, b) == BinE("+", a, b)
 
-Names == <<"x", "y", "p">>          \* "x" and "y" are also globals of the caller
+Names == <<"x", "y", "p", "g">>     \* "x" and "y" are also globals of the caller, "g" is written by some callees
+NNames == IF Tier = "thorough" THEN 4 ELSE 3
 
 \* the places a call can be made from
 NPlaces == 6
@@ -37,6 +38,11 @@ At(place, stmts) ==
     [] place = 4 -> <<Asg("w", LitI(0)), While(BinE("<", Ref("w"), LitI(2)), <<Bump("w")>> \o stmts)>>
     [] place = 5 -> <<If(LitB(TRUE), stmts)>>
     [] place = 6 -> <<Func("outer", <<"x">>, stmts \o <<Ret(Ref("x"))>>), TE(Call("outer", <<LitI(77)>>))>>
+
+\* the names an enclosing scope of the call site binds
+Bound(place) == CASE place = 2 -> {"x"} [] place = 3 -> {"y", "i"} [] place = 6 -> {"x"} [] OTHER -> {}
+\* a call site inside a call site (thorough tier): place2 = 0 means no second level
+At2(place, place2, stmts) == At(place, IF place2 = 0 THEN stmts ELSE At(place2, stmts))
 
 ReadAll == Ret(Arr(<<Ref("x"), Ref("y"), Ref("p"), Ref("q"), Ref("r"), Ref("g")>>))
 Prelude == <<Asg("x", LitI(1)), Asg("y", LitI(2))>>
@@ -73,17 +79,18 @@ Template(t, a, b) ==
     [] t = 18 -> <<Func("f", <<a>>, <<Func("inner", <<b>>, <<If(BinE(">", Ref(b), LitI(0)), <<Ret(LitI(1))>>)>>), Ret(Call("inner", <<Ref(a)>>))>>)>>
 
 \* definitions before (TRUE) or after (FALSE) the code that calls them
-Prog(t, a, b, place, before) ==
+ProgAt(t, a, b, place, place2, before) ==
   LET defs == Template(t, a, b)
       arg  == IF t \in {5, 14} THEN LitI(2) ELSE LitI(3)
       call == IF t = 9 THEN <<<<"expr", Call("f", <<arg>>)>>, Asg("r", LitI(1))>>
               ELSE IF t = 17 THEN <<<<"expr", Call("f", <<arg>>)>>, Asg("r", Call("f2", <<>>)), TE(Ref("r"))>>
               ELSE <<Asg("r", Call("f", <<arg>>)), TE(Ref("r"))>>
-      body == Prelude \o At(place, call) \o <<ReadAll>>
+      body == Prelude \o At2(place, place2, call) \o <<ReadAll>>
   IN IF before THEN defs \o body ELSE body \o defs
+Prog(t, a, b, place, before) == ProgAt(t, a, b, place, 0, before)
 
-Row(t, a, b, place, before) ==
-  LET prog == Prog(t, a, b, place, before)
+Row(t, a, b, place, place2, before) ==
+  LET prog == ProgAt(t, a, b, place, place2, before)
       r1 == RunProgram(prog, <<>>, <<>>, Host, Fuel)
       r2 == RunProgram(prog, r1.g, <<>>, Host, Fuel)
   IN [k |-> "scope", t |-> t, prog |-> prog, fns |-> Host, vars |-> <<>>, errvars |-> TRUE,
@@ -91,15 +98,17 @@ Row(t, a, b, place, before) ==
                  [obj |-> <<>>, exp |-> [out |-> r2.out, calls |-> r2.calls, vars |-> r2.g]]>>,
       done |-> TRUE]
 
-Init == \E t \in 1..NTemplates, a \in 1..3 : row = [k |-> "s0", t |-> t, a |-> Names[a], done |-> FALSE]
+Init == \E t \in 1..NTemplates, a \in 1..NNames : row = [k |-> "s0", t |-> t, a |-> Names[a], done |-> FALSE]
 
 Next == /\ ~row.done
-        /\ \E b \in 1..3, place \in 1..NPlaces, before \in BOOLEAN :
+        /\ \E b \in 1..NNames, place \in 1..NPlaces, place2 \in 0..NPlaces, before \in BOOLEAN :
              /\ Names[b] # row.a
+             /\ (Tier = "thorough" \/ place2 = 0)
+             /\ ~(place = 6 /\ place2 = 6)                     \* (two definitions of "outer", one inside the other)
              \* a callee assigning a name which an enclosing scope of the CALLER binds: the
              \* statement only says "other names are global"; not generated
-             /\ ~(row.t = 15 /\ ((place = 2 /\ Names[b] = "x") \/ (place = 3 /\ Names[b] = "y") \/ (place = 6 /\ Names[b] = "x")))
-             /\ row' = Row(row.t, row.a, Names[b], place, before)
+             /\ ~(row.t = 15 /\ Names[b] \in (Bound(place) \cup Bound(place2)))
+             /\ row' = Row(row.t, row.a, Names[b], place, place2, before)
 
 Spec == Init /\ [][Next]_vars
 
